@@ -58,6 +58,16 @@ func (l *lockedBuf) String() string {
 
 var cur *World
 
+// Applied reports whether a build-time overlay seam matched the current tree.
+func Applied(name string) bool {
+	for _, a := range strings.Split(os.Getenv("SIM_APPLIED"), ",") {
+		if a == name {
+			return true
+		}
+	}
+	return false
+}
+
 func init() {
 	casket.Quiet = true
 	casket.AppName = "casket-sim"
